@@ -78,7 +78,10 @@ Part(d, inLoop, k) ==
     ELSE IF d = 0 THEN {}
     ELSE IF k <= 8 \/ k >= 13 THEN UNION { wrap(IfForm(d, b, k)) : b \in Shapes(d - 1, inLoop) }
     ELSE UNION { wrap(LoopForm(d, b, k)) : b \in Shapes(d - 1, TRUE) }
-Shapes(d, inLoop) == UNION { Part(d, inLoop, k) : k \in 0..15 }
+\* at nesting depth 3 the INNERMOST level is drawn from a representative subset of the constructs (plain if, if-else with the child in
+\* the else part, if-elif with the child in the second arm, while, for, an empty arm before else); at depth <= 2 every level takes all
+InnerKs == IF Depth >= 3 THEN {0, 1, 3, 5, 9, 10, 13} ELSE 0..15
+Shapes(d, inLoop) == UNION { Part(d, inLoop, k) : k \in (IF d = 1 THEN InnerKs ELSE 0..15) }
 
 Fn(name, body) == [k |-> "function", name |-> name, args |-> <<>>, last |-> FALSE, body |-> body]
 CallS(name) == SAssign("res", CallL(name, <<>>))
